@@ -51,7 +51,21 @@ def comp(name, stage, exe, args, refs, **kw):
     return c
 
 
-INST0 = {'subdir': 'w', 'pkg': 'pkg', 'name': None, 'timestamp': True, 'reload': None, 'mtime': None, 'check_exe': False}
+INST0 = {'subdir': 'w', 'pkg': 'pkg', 'name': None, 'timestamp': True, 'reload': None, 'mtime': None, 'check_exe': False,
+         'outputs_first': False}
+
+
+def stream_window(end, latest='LATEST\n', keep=5, changed_older=False):
+    """what RepeatingEngine leaves in <workdir>/streams after end+1 repetitions: the last `keep` outputs"""
+    out = {}
+    for i in range(max(0, end - keep + 1), end):
+        out['streams/%d.stdout' % i] = ('changed %d\n' if changed_older else 'old %d\n') % i
+    out['streams/%d.stdout' % end] = latest
+    return out
+
+
+STREAM_ENDS = [0, 1, 9, 10, 11, 13, 99, 100, 103, 1000]
+STREAM_ENDS_CONTENT = [10, 11, 100, 1000]
 # executables shipped in the bin directory of the package, found through an environment whose PATH starts with
 # $INSTANCE_DIR/bin; the experiment is validated with checkExecutables=True (what elaunch does)
 TOOLS_ENV = {'tools': {'DEFAULTS': 'PATH:LD_LIBRARY_PATH', 'PATH': '$INSTANCE_DIR/bin:$PATH'}}
@@ -120,6 +134,16 @@ def bases():
         'C', files=dict(SCRIPTS, **{'data/in.txt': 'hello', 'data/aux.txt': 'aux'}), outputs={'P': {'out.txt': 'produced'}})
     w['environments'] = copy.deepcopy(TOOLS_ENV); w['inst']['check_exe'] = True
     out['binone'] = w
+    # what a producer printed (`<producer>:output`): out.stdout, or the most recent archived stream of a repeating producer
+    sref = dict(ref('P', None, 'output'), stdout=True)
+    w = _world([comp('P', 0, 'mon', ['energy'], []), comp('C', 1, 'cat', toks('-e', R(0), 'lit'), [dict(sref)])],
+               'C', outputs={'P': {'out.stdout': 'LATEST\n'}})
+    w['inst']['outputs_first'] = True
+    out['stdout'] = w
+    w = _world([comp('P', 0, 'mon', ['energy'], [], repeat=5), comp('C', 1, 'cat', toks('-e', R(0), 'lit'), [dict(sref)])],
+               'C', outputs={'P': stream_window(4)})
+    w['inst']['outputs_first'] = True
+    out['streams'] = w
     return out
 
 
@@ -235,6 +259,8 @@ def variations(base_name, w0):
     # reference method
     for ri, r in enumerate(t0['refs']):
         in_args = any(isinstance(p, dict) and p.get('r') == ri for p in t0['args'])
+        if r.get('stdout'):
+            continue
         if r['path'] is None:
             alts = ['ref', 'copy', 'link'] if not in_args else ['ref']
         else:
@@ -421,6 +447,30 @@ def variations(base_name, w0):
             yield 'filename', 'absolute-path:other-directory-same-content', w
             w = new(); w['files']['data/in.txt'] = w['ext'][r['path'][4:]]; _target(w)['refs'][ri]['path'] = 'data/in.txt'
             yield 'filename', 'absolute-path->data-file-same-content', w
+    # ---------- what a producer printed
+    for ri, r in enumerate(t0['refs']):
+        if not r.get('stdout') or r['prod'] not in w0['outputs']:
+            continue
+        pn = r['prod']
+        if _get(w0, pn).get('repeat'):
+            for e in STREAM_ENDS:
+                w = new(); w['outputs'][pn] = stream_window(e)
+                yield 'history', 'streams:repetitions=%d' % (e + 1), w
+            for e in [None] + STREAM_ENDS_CONTENT:
+                sib = () if e is None else ('streams:repetitions=%d' % (e + 1),)
+                e_ = 4 if e is None else e
+                w = new(); w['outputs'][pn] = stream_window(e_, latest='OTHER\n')
+                yield ('latest', 'streams[%d repetitions]:most-recent-output-changed' % (e_ + 1), w) + sib
+                w = new(); w['outputs'][pn] = stream_window(e_, changed_older=True)
+                yield ('oldstream', 'streams[%d repetitions]:older-outputs-changed' % (e_ + 1), w) + sib
+            w = new(); w['remove'] += ['%s/%s' % (pn, k) for k in sorted(w['outputs'][pn])]
+            yield 'missing', 'missing[ref%d]:no-archived-output-yet' % ri, w
+        else:
+            for how in ('first', 'last', 'append', 'empty'):
+                w = new(); w['outputs'][pn]['out.stdout'] = _flip(w['outputs'][pn]['out.stdout'], how)
+                yield 'content', 'stdout[ref%d]:%s' % (ri, how), w
+            w = new(); w['remove'].append('%s/out.stdout' % pn)
+            yield 'missing', 'missing[ref%d]:no-stdout' % ri, w
     # ---------- missing inputs
     for ri, r in enumerate(t0['refs']):
         if r['path'] is None:
@@ -541,7 +591,7 @@ def ref_string(world, c, r, root):
     s = ('stage%d.' % prod['stage'] if r['abs'] else '') + prod['name']
     if r['path'] is not None:
         s += '/' + r['path']
-    return '%s:%s' % (s, r['method'])
+    return '%s:%s' % (s, r['method'])      # stdout references: `<producer>:output`
 
 
 def build_doc(world, root):
@@ -564,6 +614,8 @@ def build_doc(world, root):
             d['variables'] = dict(c['vars'])
         if c.get('rr'):
             d['resourceRequest'] = dict(c['rr'])
+        if c.get('repeat'):
+            d['workflowAttributes'] = {'repeatInterval': c['repeat']}
         rm = copy.deepcopy(c.get('rm') or {})
         b = c.get('backend')
         if b:
@@ -618,7 +670,8 @@ def realise(world, root):
         pkg = experiment.model.storage.ExperimentPackage.packageFromLocation(package_path)
         exp = experiment.model.data.Experiment.experimentFromPackage(
             pkg, location=location, timestamp=bool(inst.get('timestamp', True)), inputs=inputs or None, **kw)
-        exp.validateExperiment(checkExecutables=check_exe)
+        if not inst.get('outputs_first'):
+            exp.validateExperiment(checkExecutables=check_exe)
     except Exception as e:     # the loader / validator of the product refuses the workflow: the world is not judged
         raise Rejected('%s: %s' % (type(e).__name__, ' '.join(str(e).split())[:300]))
     idir = exp.instanceDirectory
@@ -626,6 +679,12 @@ def realise(world, root):
     for cn, outs in (world.get('outputs') or {}).items():
         wd = idir.workingDirectoryForComponent(by_name[cn]['stage'], cn)
         populate_files(wd, {k: expand_content(v) for k, v in outs.items()})
+    if inst.get('outputs_first'):
+        # a `<producer>:output` reference can only be validated once the producer has printed something
+        try:
+            exp.validateExperiment(checkExecutables=check_exe)
+        except Exception as e:
+            raise Rejected('%s: %s' % (type(e).__name__, ' '.join(str(e).split())[:300]))
     for x in world.get('remove') or []:
         if x.startswith('EXT/'):
             os.remove(os.path.join(extd, x[4:]))
@@ -665,4 +724,65 @@ def realise(world, root):
     for n, cs in specs.items():
         out[n] = {'strong': cs.memoization_hash, 'fuzzy': cs.memoization_hash_fuzzy, 'info': cs.memoization_info,
                   'info_fuzzy': cs.memoization_info_fuzzy}
+    runtime_view(world, exp, root, out)
     return out
+
+
+class InMemoryCDB(object):
+    """the two calls of the component database that Controller.can_memoize() makes"""
+
+    def __init__(self, documents):
+        self.documents = documents
+        self.queries = []
+
+    def cdb_get_document_component(self, query=None, _api_verbose=True, **kwargs):
+        query = dict(query or {})
+        self.queries.append(query)
+        return [d for d in self.documents if all(d.get(k) == query[k] for k in query)]
+
+    def cdb_query_component_files_exist(self, instance_uri, stage_index, component_name):
+        return False
+
+
+def runtime_view(world, exp, root, out):
+    """Where the hashes are consumed: the runtime wrapper (ComponentState.memoization_hash[_fuzzy]) and the lookup
+    Controller.can_memoize() performs in the component database. The database holds one document per component of a
+    past run of the SAME world (hash fields = the hashes read from the specification, '' where there is none - the
+    convention of Experiment.annotate_component_documents) plus the document of an unrelated component that never
+    finished (hash fields ''); every document points to an existing, non-empty directory."""
+    import networkx
+    import experiment.runtime.control
+    import experiment.runtime.workflow
+    from verif.gen.pkg import populate_files
+    docs = []
+    stamp = 'file://past.host/somewhere/%s-2026-01-01T000000.000000.instance'
+    for c in world['comps']:
+        loc = os.path.join(root, 'past', c['name'])
+        populate_files(loc, {'result.txt': 'result of %s' % c['name']})
+        docs.append({'type': 'component', 'instance': stamp % 'same', 'stage': c['stage'], 'name': c['name'], 'location': loc,
+                     'memoization-hash': out[c['name']]['strong'] or '', 'memoization-hash-fuzzy': out[c['name']]['fuzzy'] or '',
+                     'component-state': 'finished', 'doc-of': c['name']})
+    loc = os.path.join(root, 'past', '__unrelated__')
+    populate_files(loc, {'result.txt': 'UNRELATED'})
+    docs.append({'type': 'component', 'instance': stamp % 'other', 'stage': 0, 'name': 'never-finished', 'location': loc,
+                 'memoization-hash': '', 'memoization-hash-fuzzy': '', 'component-state': 'failed', 'doc-of': None})
+    cdb = InMemoryCDB(docs)
+    g = exp.graph
+    states = {}
+    for reference in networkx.topological_sort(g):
+        data = g.nodes[reference]
+        name = data['componentSpecification'].identification.componentName
+        if name not in out:
+            continue
+        job = exp._stages[data['stageIndex']].jobWithName(name)
+        states[name] = experiment.runtime.workflow.ComponentState(job, exp.experimentGraph, create_engine=False)
+    controller = experiment.runtime.control.Controller(exp, cdb=cdb, memoization_fuzzy=True)
+    for name, st in states.items():
+        o = out[name]
+        o['wrapper'] = {'strong': st.memoization_hash, 'fuzzy': st.memoization_hash_fuzzy}
+        o['lookup'] = {}
+        for kind, fuzzy in (('strong', False), ('fuzzy', True)):
+            del cdb.queries[:]
+            m = controller.can_memoize(st, fuzzy)
+            o['lookup'][kind] = {'matched': None if m is None else (m.get('doc-of') or '__unrelated__'),
+                                 'queries': [dict(q) for q in cdb.queries]}
